@@ -158,7 +158,10 @@ def pollRecvResponse (S : Src σ) (H : Hdr) (st : St σ) : Res × St σ :=
     | .malformed =>
       (.errStream CODE_H3_MESSAGE_ERROR,
        { st' with env := { st'.env with stop := first st'.env.stop CODE_H3_MESSAGE_ERROR } })
-  | .none => connErr st' CODE_H3_FRAME_UNEXPECTED
+  -- the response stream ended before any frame: the response is missing, an error of THIS request (nothing is
+  -- sent: the receive side is over; the cell is not touched).  Before the repair 6945722 this was the connection
+  -- error H3_FRAME_UNEXPECTED (finding D-07a, C07).
+  | .none => (.errStream CODE_H3_MESSAGE_ERROR, st')
   | .frame _ => connErr st' CODE_H3_FRAME_UNEXPECTED
   | .pending => (.pending, st')
   | e => fsErr st' e
